@@ -1613,8 +1613,13 @@ class Server:
         return await self.stor(connection, rest, "ab")
 
     async def rest(self, connection, rest):
-        if rest.isascii() and rest.isdigit():
-            connection.restart_offset = int(rest)
+        try:
+            offset = int(rest) if rest.isascii() and rest.isdigit() else None
+        except ValueError:
+            # more digits than `int` is willing to convert
+            offset = None
+        if offset is not None:
+            connection.restart_offset = offset
             connection.response("350", f"restarting at {rest}")
         else:
             connection.restart_offset = 0
